@@ -1,7 +1,14 @@
 package c18
 
 import (
+	"encoding/json"
 	"fmt"
+	"go/ast"
+	"go/parser"
+	"go/token"
+	"os"
+	"sort"
+	"strconv"
 	"strings"
 
 	"verifharness/hx"
@@ -34,6 +41,55 @@ func leanStrList(xs []string) string {
 		p[i] = leanStr(x)
 	}
 	return "[" + strings.Join(p, ", ") + "]"
+}
+
+// configSource is the file that declares the flag names; through VERIF_OVERLAY when one is set.
+const configSource = "/repo/pkg/config/config.go"
+
+func overlaid(path string) string {
+	if ov := os.Getenv("VERIF_OVERLAY"); ov != "" {
+		if raw, err := os.ReadFile(ov); err == nil {
+			var m struct{ Replace map[string]string }
+			if json.Unmarshal(raw, &m) == nil && m.Replace[path] != "" {
+				return m.Replace[path]
+			}
+		}
+	}
+	return path
+}
+
+// FlagConstants reads the SOURCE (go/parser, not the compiled code): every constant of
+// pkg/config/config.go whose name starts with `Flag` and whose value is a string literal. They are
+// the flags the package says it has; the tables built by asking cobra must contain them (so that an
+// empty or truncated table cannot pass the `for every flag` obligations vacuously).
+func FlagConstants() ([][2]string, error) {
+	fset := token.NewFileSet()
+	f, err := parser.ParseFile(fset, overlaid(configSource), nil, 0)
+	if err != nil {
+		return nil, err
+	}
+	var out [][2]string
+	for _, d := range f.Decls {
+		gd, ok := d.(*ast.GenDecl)
+		if !ok || gd.Tok != token.CONST {
+			continue
+		}
+		for _, sp := range gd.Specs {
+			vs := sp.(*ast.ValueSpec)
+			for i, n := range vs.Names {
+				if !strings.HasPrefix(n.Name, "Flag") || i >= len(vs.Values) {
+					continue
+				}
+				if bl, ok := vs.Values[i].(*ast.BasicLit); ok && bl.Kind == token.STRING {
+					if v, err := strconv.Unquote(bl.Value); err == nil {
+						out = append(out, [2]string{n.Name, v})
+					}
+				}
+			}
+		}
+	}
+	sort.Slice(out, func(i, j int) bool { return out[i][0] < out[j][0] })
+	return out, nil
 }
 
 // Facts renders the tables as lists of tuples of small definitions (Gen modules may import only
@@ -83,6 +139,17 @@ func Facts() (string, error) {
 		nm = append(nm, fmt.Sprintf("(%s, %s)", leanStr(f.Name), leanStr(f.Key)))
 	}
 	fmt.Fprintf(&b, "def flagNames : List (String × String) := [%s]\n", strings.Join(nm, ", "))
+	// read from the SOURCE: the `Flag*` string constants of pkg/config/config.go
+	fc, err := FlagConstants()
+	if err != nil {
+		return "", fmt.Errorf("flag constants: %w", err)
+	}
+	var fcs []string
+	for _, c := range fc {
+		fcs = append(fcs, fmt.Sprintf("(%s, %s)", leanStr(c[0]), leanStr(c[1])))
+	}
+	b.WriteString("/-- (constant name, value) of every `Flag*` string constant declared in pkg/config/config.go, read from the source with go/parser -/\n")
+	fmt.Fprintf(&b, "def flagConstants : List (String × String) := [%s]\n", strings.Join(fcs, ", "))
 	return b.String(), nil
 }
 
